@@ -157,5 +157,6 @@ pub fn c16() -> PropDef {
         check: check_c16,
         adjust: no_adjust,
         assumptions: COMMON_ASSUMPTIONS,
+        tiny: no_tiny,
     }
 }
